@@ -393,11 +393,16 @@ pub fn record(out: &str, seed: u64, n: usize) -> Value {
                 };
                 ops.push(op);
             }
-            let mut scratch = Vec::new();
-            let evs = build(&ops, &mut scratch);
-            let out_b = write_sync(&evs, None);
-            let asy = write_async(&evs, None);
-            writeln!(f, "{}", json!({"t": "WBuild", "ops": ops, "out": out_b, "same_async": if asy == out_b {1} else {0}})).unwrap();
+            let built = catch_unwind(AssertUnwindSafe(|| {
+                let mut scratch = Vec::new();
+                let evs = build(&ops, &mut scratch);
+                let out_b = write_sync(&evs, None);
+                let asy = write_async(&evs, None);
+                (out_b.clone(), asy == out_b)
+            }));
+            // a panic in the code under test is data: an output the specification cannot accept
+            let (out_b, same) = built.unwrap_or((b"<PANIC".to_vec(), false));
+            writeln!(f, "{}", json!({"t": "WBuild", "ops": ops, "out": out_b, "same_async": if same {1} else {0}})).unwrap();
             if len >= 2 {
                 nontriv += 1;
             }
